@@ -445,7 +445,9 @@ FMHistoryContract(e) ==
 (* cross-environment copy: src / copy exported structures, shared = number of FNode objects of the
    copy that are also reachable from the source, in_target = copy belongs to the target manager *)
 NormalizeContract(e) ==
-    IF e.res # "ok" THEN Verdict(<<"raises">>, <<>>, -1)
+    \* conflict = the target environment already declares one of the symbols with another sort: refusing is then
+    \* the only alternative to a faithful copy
+    IF e.res # "ok" THEN (IF e.conflict THEN Accept ELSE Verdict(<<"raises">>, <<>>, -1))
     ELSE Verdict(Fl("structurally_identical_copy", e.copy = e.src) \o
                  Fl("copy_well_typed", TypeOf(e.copy) # Ill) \o
                  Fl("reported_type_out", e.rty = TypeOf(e.copy)) \o
